@@ -452,9 +452,21 @@ def o_c05(spec, obs):
     exp = expected_device_concrete(d, family)
     got = obs["devices"][0]
     for k, v in exp.items():
+        if k == "electric_current" and _amps_ok(got.get(k), v, got.get("power_consumption")):
+            continue
         if got.get(k) != v:
             return True, "field %s = %r, device encoded %r" % (k, got.get(k), v)
     return False, "ok"
+
+
+def _amps_ok(got, exp, watts):
+    """watts/220 to one decimal; at an exact tie (watts = 22k + 11) either neighbour"""
+    if got == exp:
+        return True
+    if not isinstance(got, (int, float)) or watts is None:
+        return False
+    k = round(got * 10)
+    return abs(k / 10 - got) < 1e-9 and abs(22 * k - watts) <= 11
 
 
 @oracle("C06")
@@ -506,6 +518,8 @@ def o_c08(spec, obs):
                "temperature": r["temp10"] / 10, "target_temperature": r["target"],
                "remote_id": bytes(r["remote"]).decode().rstrip("\x00")}
     for k, v in exp.items():
+        if k == "electric_current" and _amps_ok(got.get(k), v, got.get("power_consumption")):
+            continue
         if got.get(k) != v:
             return True, "field %s = %r, device reported %r" % (k, got.get(k), v)
     frames = [bytes.fromhex(f) for f in obs["frames"]]
